@@ -245,14 +245,22 @@ func isUpdate(txn *etcdserverpb.TxnRequest) (int64, []byte, []byte, int64, bool)
 
 func isCompact(txn *etcdserverpb.TxnRequest) bool {
 	// See https://github.com/kubernetes/kubernetes/blob/442a69c3bdf6fe8e525b05887e57d89db1e2f3a5/staging/src/k8s.io/apiserver/pkg/storage/etcd3/compact.go#L72
-	return len(txn.Compare) == 1 &&
+	// like the other recognisers: the put and the read must be plain and on the compared key, anything else is
+	// not the compaction probe and must not be answered as if it were
+	if len(txn.Compare) == 1 &&
 		txn.Compare[0].Target == etcdserverpb.Compare_VERSION &&
 		txn.Compare[0].Result == etcdserverpb.Compare_EQUAL &&
+		len(txn.Compare[0].RangeEnd) == 0 &&
 		len(txn.Success) == 1 &&
 		txn.Success[0].GetRequestPut() != nil &&
 		len(txn.Failure) == 1 &&
-		txn.Failure[0].GetRequestRange() != nil &&
-		string(txn.Compare[0].Key) == "compact_rev_key"
+		string(txn.Compare[0].Key) == "compact_rev_key" {
+		put := txn.Success[0].GetRequestPut()
+		return bytes.Equal(put.Key, txn.Compare[0].Key) &&
+			!put.PrevKv && !put.IgnoreValue && !put.IgnoreLease &&
+			isPlainGet(txn.Failure[0], txn.Compare[0].Key)
+	}
+	return false
 }
 
 // just return false, so that apiserver will not call compact method
